@@ -2,6 +2,7 @@ SPECIFICATION RSpec
 CONSTANTS
   Repaired = FALSE
   MaxStyles = 3
+  UseAligns = TRUE
   Depth = 2
   OwnFields <- MCOwn
   BorderFields <- MCBorder
